@@ -180,13 +180,6 @@ theorem resRel_refl (A : Except Fault (PState × Res)) : ResRel A A := by
   | error f => rfl
   | ok a => exact Or.inl rfl
 
-theorem takeWhile_id {p : UInt8 → Bool} (l : Bytes) (h : ∀ c ∈ l, p c = true) : l.takeWhile p = l := by
-  induction l with
-  | nil => rfl
-  | cons c l ih =>
-    simp only [List.takeWhile_cons, h c (by simp), if_true]
-    rw [ih (fun x hx => h x (by simp [hx]))]
-
 theorem fgets_lastline (last : Bytes) (h : Hlast last) :
     fgets last = some (last, []) ∧ fgets (last ++ [10]) = some (last ++ [10], []) := by
   obtain ⟨hno, hne, hlen⟩ := h
@@ -201,6 +194,82 @@ theorem fgets_lastline (last : Bytes) (h : Hlast last) :
     rw [ht, htw]
     simp
   · exact fgets_line last [] hno hlen
+
+theorem fgets_split (inp c r : Bytes) (h : fgets inp = some (c, r)) : c ++ r = inp ∧ c.length ≤ maxLineSize - 1 := by
+  unfold fgets at h
+  by_cases he : inp = []
+  · simp [he] at h
+  · simp only [he, if_false, Option.some.injEq, Prod.mk.injEq] at h
+    obtain ⟨rfl, rfl⟩ := h
+    refine ⟨List.take_append_drop _ _, ?_⟩
+    have h1 : ((inp.take (maxLineSize - 1)).takeWhile (· != 10)).length ≤ (inp.take (maxLineSize - 1)).length :=
+      (List.takeWhile_sublist _).length_le
+    have h2 : (inp.take (maxLineSize - 1)).length ≤ maxLineSize - 1 := by simp [List.length_take]; omega
+    simp only [List.length_take]
+    split <;> omega
+
+/-- the C string of a buffer that is completely filled is the buffer -/
+theorem takeWhile_full (l : Bytes) (n : Nat) (hl : l.length ≤ n) (h : (l.takeWhile (· != 0)).length = n) :
+    l.takeWhile (· != 0) = l :=
+  (List.takeWhile_prefix (· != 0)).eq_of_length (by
+    have := (List.takeWhile_sublist (· != 0) (l := l)).length_le; omega)
+
+theorem dropWhile_eq_drop {p : UInt8 → Bool} (l : Bytes) : l.dropWhile p = l.drop (l.takeWhile p).length := by
+  induction l with
+  | nil => rfl
+  | cons c l ih =>
+    simp only [List.dropWhile_cons, List.takeWhile_cons]
+    split
+    · simpa using ih
+    · rfl
+
+/-- draining looks only at the current line: text behind a newline is left alone -/
+theorem drain_append (s r x : Bytes)
+    (h : r.getLast? = some 10 ∨ ¬ (s.length = maxLineSize - 1 ∧ s.getLast? ≠ some 10)) :
+    drain s (r ++ x) = ((drain s r).1 ++ x, (drain s r).2) := by
+  unfold drain
+  by_cases hf : s.length = maxLineSize - 1 ∧ s.getLast? ≠ some 10
+  · simp only [if_pos hf]
+    rcases h with h | h
+    · have hmem : (10 : UInt8) ∈ r := List.mem_of_getLast? h
+      have hstop : (r.takeWhile (· != 10)).length < r.length := by
+        apply Classical.byContradiction
+        intro hn
+        have := takeWhile_full_no r hn 10 hmem
+        simp at this
+      have htw : (r ++ x).takeWhile (· != 10) = r.takeWhile (· != 10) := takeWhile_append_stop r x hstop
+      have hdw : (r ++ x).dropWhile (· != 10) = r.dropWhile (· != 10) ++ x := by
+        have e1 := dropWhile_eq_drop (p := (· != 10)) (r ++ x)
+        have e2 := dropWhile_eq_drop (p := (· != 10)) r
+        rw [e1, htw, e2, List.drop_append_of_le_length (by omega)]
+      have hne : r.dropWhile (· != 10) ≠ [] := by
+        intro h0
+        have := congrArg List.length (List.takeWhile_append_dropWhile (p := (· != 10)) (l := r))
+        rw [h0] at this; simp at this; omega
+      rw [htw, hdw]
+      cases hd : r.dropWhile (· != 10) with
+      | nil => exact absurd hd hne
+      | cons a t => simp
+    · exact absurd hf h
+  · simp only [hf, if_false]
+
+theorem drain_hpre (s r : Bytes) (hr : Hpre r) : Hpre (drain s r).1 := by
+  unfold drain
+  split
+  · show Hpre ((r.dropWhile (· != 10)).drop 1)
+    rcases hr with h | h
+    · subst h; left; rfl
+    · by_cases he : ((r.dropWhile (· != 10)).drop 1) = []
+      · left; exact he
+      · right
+        have hsuf : ((r.dropWhile (· != 10)).drop 1) <:+ r :=
+          (List.drop_suffix _ _).trans (List.dropWhile_suffix _)
+        obtain ⟨t, ht⟩ := hsuf
+        rw [← ht, List.getLast?_append] at h
+        cases hl : ((r.dropWhile (· != 10)).drop 1).getLast? with
+        | none => exact absurd (List.getLast?_eq_none_iff.mp hl) he
+        | some v => rw [hl] at h; simpa using h
+  · exact hr
 
 theorem hpre_of_rest {r : Bytes} (h : r = [] ∨ r.getLast? = some 10) : Hpre r := h
 
@@ -223,7 +292,19 @@ theorem parseInline_snoc (cfg : Cfg) (fuel : Nat) : ∀ (sid : Nat) (parent : Op
           parseInline cfg (fuel + 1) sid parent oc ns ⟨last ++ [10], ln, evs⟩ := by
         conv => lhs; unfold parseInline
         conv => rhs; unfold parseInline
-        simp only [f1, f2, takeWhile_nz_snoc]
+        have hk : maxLineSize - 1 = 4095 := by decide
+        have hA1 : (last.takeWhile (· != 0)).length ≤ last.length := (List.takeWhile_sublist _).length_le
+        have dA : drain (last.takeWhile (· != 0)) [] = ([], false) :=
+          drain_short _ _ (by have := hlast.2.2; omega)
+        have dB : drain ((last ++ [10]).takeWhile (· != 0)) [] = ([], false) := by
+          apply drain_not_full
+          intro hfull
+          have hl : (last ++ [10]).length ≤ maxLineSize - 1 := by
+            have := hlast.2.2; simp only [List.length_append, List.length_cons, List.length_nil]; omega
+          have := takeWhile_full (last ++ [10]) _ hl hfull.1
+          rw [this] at hfull
+          exact hfull.2 (by simp)
+        simp only [f1, f2, dA, dB, takeWhile_nz_snoc]
       rw [hA]
       exact resRel_refl _
     · obtain ⟨chunk, r, g1, g2, hr, hrl⟩ := fgets_append pre last hp
@@ -233,16 +314,36 @@ theorem parseInline_snoc (cfg : Cfg) (fuel : Nat) : ∀ (sid : Nat) (parent : Op
         simp only [Option.some.injEq, Prod.mk.injEq] at g1'; exact g1'
       have e2 : pre ++ last ++ [10] = pre ++ (last ++ [10]) := by simp
       have e3 : r ++ (last ++ [10]) = r ++ last ++ [10] := by simp
+      -- the rest of an over-long line is consumed inside `pre`
+      have hcond : r.getLast? = some 10 ∨
+          ¬ ((chunk.takeWhile (· != 0)).length = maxLineSize - 1 ∧ (chunk.takeWhile (· != 0)).getLast? ≠ some 10) := by
+        rcases hr with h0 | h0
+        · right
+          intro hfull
+          obtain ⟨hsp, hcl⟩ := fgets_split pre chunk r g1
+          rw [h0, List.append_nil] at hsp
+          have := takeWhile_full chunk _ hcl hfull.1
+          rw [this, hsp] at hfull
+          exact hfull.2 hp
+        · exact Or.inl h0
+      have hdA := drain_append (chunk.takeWhile (· != 0)) r last hcond
+      have hdB := drain_append (chunk.takeWhile (· != 0)) r (last ++ [10]) hcond
+      have hr2 := drain_hpre (chunk.takeWhile (· != 0)) r hr
+      generalize (drain (chunk.takeWhile (· != 0)) r).1 = r2 at hdA hdB hr2
+      generalize (drain (chunk.takeWhile (· != 0)) r).2 = tl at hdA hdB
+      have e4 : r2 ++ (last ++ [10]) = r2 ++ last ++ [10] := by simp
       -- states after reading the line
       have out : ∀ (res : Res) (ev : List Event),
-          ResRel (.ok (⟨r ++ last, ln + 1, ev⟩, res)) (.ok (⟨r ++ last ++ [10], ln + 1, ev⟩, res)) :=
-        fun res ev => Or.inr ⟨rfl, rfl, rfl, r, last, hr, hlast, rfl, rfl⟩
+          ResRel (.ok (⟨r2 ++ last, ln + 1, ev⟩, res)) (.ok (⟨r2 ++ last ++ [10], ln + 1, ev⟩, res)) :=
+        fun res ev => Or.inr ⟨rfl, rfl, rfl, r2, last, hr2, hlast, rfl, rfl⟩
       conv => lhs; unfold parseInline
       conv => rhs; unfold parseInline
       rw [e2]
-      simp only [g2, g2', e3]
+      simp only [g2, g2', hdA, hdB, e4]
       split
-      · exact ih sid parent oc ns (ln + 1) evs r last hr hlast
+      · exact out _ _
+      split
+      · exact ih sid parent oc ns (ln + 1) evs r2 last hr2 hlast
       · cases brackets (Str.trim (chunk.takeWhile (· != 0))) with
         | error f => rfl
         | ok br =>
@@ -275,18 +376,18 @@ theorem parseInline_snoc (cfg : Cfg) (fuel : Nat) : ∀ (sid : Nat) (parent : Op
                           simp only []
                           split
                           · -- a section is entered
-                            have hn := ih stp.nsid (some stp.cb) 0 0 (ln + 1) (stp.events.reverse ++ evs) r last hr hlast
+                            have hn := ih stp.nsid (some stp.cb) 0 0 (ln + 1) (stp.events.reverse ++ evs) r2 last hr2 hlast
                             revert hn
                             cases parseInline cfg fuel stp.nsid (some stp.cb) 0 0
-                                ⟨r ++ last, ln + 1, stp.events.reverse ++ evs⟩ with
+                                ⟨r2 ++ last, ln + 1, stp.events.reverse ++ evs⟩ with
                             | error f =>
                               cases parseInline cfg fuel stp.nsid (some stp.cb) 0 0
-                                  ⟨r ++ last ++ [10], ln + 1, stp.events.reverse ++ evs⟩ with
+                                  ⟨r2 ++ last ++ [10], ln + 1, stp.events.reverse ++ evs⟩ with
                               | error g => intro hn; exact hn
                               | ok b => intro hn; exact absurd hn (by simp [ResRel])
                             | ok a =>
                               cases parseInline cfg fuel stp.nsid (some stp.cb) 0 0
-                                  ⟨r ++ last ++ [10], ln + 1, stp.events.reverse ++ evs⟩ with
+                                  ⟨r2 ++ last ++ [10], ln + 1, stp.events.reverse ++ evs⟩ with
                               | error g => intro hn; exact absurd hn (by simp [ResRel])
                               | ok b =>
                                 intro hn
@@ -308,7 +409,7 @@ theorem parseInline_snoc (cfg : Cfg) (fuel : Nat) : ∀ (sid : Nat) (parent : Op
                                     exact ih sid (none) (oc + n2 + 1) stp.nsid _ _ p2 l2 hp2 hl2
                           · split
                             · exact out _ _
-                            · exact ih sid (none) (oc + 1) stp.nsid (ln + 1) _ r last hr hlast
+                            · exact ih sid (none) (oc + 1) stp.nsid (ln + 1) _ r2 last hr2 hlast
 
                   | some p =>
                     simp only []
@@ -324,18 +425,18 @@ theorem parseInline_snoc (cfg : Cfg) (fuel : Nat) : ∀ (sid : Nat) (parent : Op
                           simp only []
                           split
                           · -- a section is entered
-                            have hn := ih stp.nsid (some stp.cb) 0 0 (ln + 1) (stp.events.reverse ++ evs) r last hr hlast
+                            have hn := ih stp.nsid (some stp.cb) 0 0 (ln + 1) (stp.events.reverse ++ evs) r2 last hr2 hlast
                             revert hn
                             cases parseInline cfg fuel stp.nsid (some stp.cb) 0 0
-                                ⟨r ++ last, ln + 1, stp.events.reverse ++ evs⟩ with
+                                ⟨r2 ++ last, ln + 1, stp.events.reverse ++ evs⟩ with
                             | error f =>
                               cases parseInline cfg fuel stp.nsid (some stp.cb) 0 0
-                                  ⟨r ++ last ++ [10], ln + 1, stp.events.reverse ++ evs⟩ with
+                                  ⟨r2 ++ last ++ [10], ln + 1, stp.events.reverse ++ evs⟩ with
                               | error g => intro hn; exact hn
                               | ok b => intro hn; exact absurd hn (by simp [ResRel])
                             | ok a =>
                               cases parseInline cfg fuel stp.nsid (some stp.cb) 0 0
-                                  ⟨r ++ last ++ [10], ln + 1, stp.events.reverse ++ evs⟩ with
+                                  ⟨r2 ++ last ++ [10], ln + 1, stp.events.reverse ++ evs⟩ with
                               | error g => intro hn; exact absurd hn (by simp [ResRel])
                               | ok b =>
                                 intro hn
@@ -357,7 +458,7 @@ theorem parseInline_snoc (cfg : Cfg) (fuel : Nat) : ∀ (sid : Nat) (parent : Op
                                     exact ih sid ((some p)) (oc + n2 + 1) stp.nsid _ _ p2 l2 hp2 hl2
                           · split
                             · exact out _ _
-                            · exact ih sid ((some p)) (oc + 1) stp.nsid (ln + 1) _ r last hr hlast
+                            · exact ih sid ((some p)) (oc + 1) stp.nsid (ln + 1) _ r2 last hr2 hlast
 
 
 /-- more fuel does not change a result -/
@@ -373,9 +474,16 @@ theorem parseInline_mono (cfg : Cfg) (fuel : Nat) : ∀ (sid : Nat) (parent : Op
     cases hfg : fgets st.input with
     | none => rw [hfg] at h; exact h
     | some cr =>
-      obtain ⟨chunk, rest⟩ := cr
+      obtain ⟨chunk, rest0⟩ := cr
       rw [hfg] at h
       simp only [] at h ⊢
+      generalize drain (chunk.takeWhile (· != 0)) rest0 = dr at h ⊢
+      obtain ⟨rest, tl⟩ := dr
+      simp only [] at h ⊢
+      split at h
+      · rename_i hc0; simp only [hc0, if_true]; exact h
+      rename_i hc0
+      simp only [hc0, if_false]
       split at h
       · rename_i hc; simp only [hc, if_true]; exact ih _ _ _ _ _ _ h
       · rename_i hc
